@@ -309,7 +309,8 @@ def handover_job(args):
     right after a command was accepted - for command-buffer depths 1, 2 and 4.  Every command must be accepted and get its own
     strobe within Bound(cfg); no port may see a strobe it has no outstanding command for."""
     from migen import run_simulation
-    seed, k = args
+    seed, k = args[:2]
+    prop = args[2] if len(args) > 2 else "C05"
     rnd = random.Random("c05-handover-%d-%d" % (seed, k))
     while True:
         cfg = corelib.rand_core_cfg(rnd)
@@ -326,20 +327,26 @@ def handover_job(args):
     split = cfg["colbits"] - cfg["align"]
     bb = cfg["bankbits"]
     r = Result()
-    res = dict(viol=None, served=0, worst=0)
+    res = dict(viol=None, served=0, worst=0, reads_checked=0)
     mixes = [(0, 0), (1, 1), (0, 1)][k % 3]
+    golden = {}                      # address -> last word written (accept order = execution order: one bank, one queue)
+    dmask = (1 << ports[0].data_width) - 1
 
     def gen():
         st = [dict(state="idle", gap=rnd.randrange(0, 4), t0=0, we=0) for _ in ports]
         for p in ports:
-            yield p.rdata.ready.eq(1); yield p.wdata.valid.eq(1); yield p.wdata.we.eq(0xff)
+            yield p.rdata.ready.eq(1); yield p.wdata.valid.eq(1); yield p.wdata.we.eq((1 << (p.data_width // 8)) - 1)
         for t in range(N):
             for i, p in enumerate(ports):
                 s_ = st[i]
                 if s_["state"] == "idle" and s_["gap"] == 0:
                     s_["state"] = "offer"; s_["t0"] = t; s_["we"] = mixes[i % 2] if rnd.random() < 0.8 else rnd.randrange(2)
-                    yield p.cmd.addr.eq(rnd.randrange(1 << split) | (0 << split) | (rnd.randrange(3) << (split + bb)))
+                    s_["addr"] = rnd.randrange(1 << split) | (0 << split) | (rnd.randrange(3) << (split + bb))
+                    s_["data"] = rnd.getrandbits(ports[0].data_width) & dmask
+                    yield p.cmd.addr.eq(s_["addr"])
                     yield p.cmd.we.eq(s_["we"])
+                    if s_["we"]:
+                        yield p.wdata.data.eq(s_["data"])
                 yield p.cmd.valid.eq(1 if s_["state"] == "offer" else 0)
             yield
             for i, p in enumerate(ports):
@@ -349,8 +356,17 @@ def handover_job(args):
                 if (wr and not (expecting and s_["we"])) or (rv and not (expecting and not s_["we"])):
                     if res["viol"] is None:
                         res["viol"] = ("spurious", i, t, "write-data" if wr else "read-data")
+                if rv and expecting and not s_["we"] and s_.get("expect") is not None:
+                    got = (yield p.rdata.data)
+                    res["reads_checked"] += 1
+                    if got != s_["expect"] and res["viol"] is None:
+                        res["viol"] = ("data", i, t, (s_["addr"], s_["expect"], got))
                 if s_["state"] == "offer" and (yield p.cmd.ready):
                     res["worst"] = max(res["worst"], t - s_["t0"]); s_["state"] = "wait"; s_["t0"] = t
+                    if s_["we"]:
+                        golden[s_["addr"]] = s_["data"]
+                    else:
+                        s_["expect"] = golden.get(s_["addr"])     # None: never written in this scenario, not judged
                 elif s_["state"] == "wait" and ((wr and s_["we"]) or (rv and not s_["we"])):
                     res["worst"] = max(res["worst"], t - s_["t0"]); s_["state"] = "idle"; s_["gap"] = rnd.randrange(0, 4); res["served"] += 1
                 elif s_["state"] == "idle" and s_["gap"]:
@@ -362,14 +378,17 @@ def handover_job(args):
     r.distinct.add(("handover", seed, k))
     r.coverage["handover_scenarios"] = 1
     r.coverage["handover_served"] = res["served"]
+    r.coverage["handover_reads_checked"] = res["reads_checked"]
     if res["viol"]:
         kind, i, t, x = res["viol"]
         if kind == "spurious":
             what = "port %d received a %s strobe at cycle %d although it has no such command outstanding (a strobe went to the wrong port)" % (i, x, t)
+        elif kind == "data":
+            what = "port %d's read of address %#x returned %#x at cycle %d, the last word written there is %#x" % (i, x[0], x[2], t, x[1])
         else:
             what = "port %d's command has been %s for %d cycles at cycle %d (Bound(cfg) = %d)" % (
                 i, "offered without being accepted" if kind == "offer" else "accepted without receiving its strobe", x, t, B)
-        r.violations.append(dict(signature="c05-handover", what="%s 1:%d, %d ports taking turns on one bank, cmd_buffer_depth=%d: %s; accesses served so far: %d"
+        r.violations.append(dict(signature="c05-handover" if prop == "C05" else "c01-handover", what="%s 1:%d, %d ports taking turns on one bank, cmd_buffer_depth=%d: %s; accesses served so far: %d"
                                  % (cfg["memtype"], cfg["nphases"], len(ports), cfg["ctrl"]["cmd_buffer_depth"], what, res["served"]),
                                  replay=dict(config=cfg, scenario="handover-%d" % k, seed=seed)))
     return r
@@ -388,6 +407,9 @@ def run(prop, tier, seed):
             jobs.insert(0, (handover_job, (seed, k)))
         for k in range(8 if tier == "quick" else 32):
             jobs.insert(0, (rowmiss_job, (seed, k)))
+    if prop == "C01":
+        for k in range(8 if tier == "quick" else 24):
+            jobs.insert(0, (handover_job, (seed, k, "C01")))
     for r in core.pmap(_dispatch, jobs):
         res.merge(r)
     return res
